@@ -115,7 +115,7 @@ def run(tier, seed, replay=None):
             elif op in ('refine', 'refine_dir'):
                 extra = rng.choice([1, 1, 3])
             else:
-                extra = (rng.choice(['geometric', 'center', 'edge']), rng.choice([0.5, 0.8, 1.1, 1.3]), rng.randint(1, 4), rng.random() < 0.3)
+                extra = (rng.choice(['geometric', 'geometric', 'center', 'edge']), rng.choice([0.5, 0.8, 1.0, 1.1, 1.3]), rng.randint(1, 4), rng.random() < 0.4, rng.random() < 0.4)
         b = spec['bases'][d]
         dist['op'][op] = dist['op'].get(op, 0) + 1
         dist['pardim'][pd] = dist['pardim'].get(pd, 0) + 1
@@ -132,13 +132,17 @@ def run(tier, seed, replay=None):
             elif op == 'refine_dir':
                 ret = o.refine(extra, direction=d)
             else:
-                kind, par, n, rev = extra
-                if kind == 'geometric':
-                    ret = refinement.geometric_refine(o, par, n, d, rev)
-                elif kind == 'center':
-                    ret = refinement.center_refine(o, par, n, d)
-                else:
-                    ret = refinement.edge_refine(o, par, n, d)
+                kind, par, n, rev = extra[:4]
+                twice = len(extra) > 4 and extra[4]
+                # the utilities skip knots that already exist: a repeated identical call (or a uniform grading of an
+                # already uniform direction) must be a no-op, not merely "usually" insert something
+                for _rep in range(2 if twice else 1):
+                    if kind == 'geometric':
+                        ret = refinement.geometric_refine(o, par, n, d, rev)
+                    elif kind == 'center':
+                        ret = refinement.center_refine(o, par, n, d)
+                    else:
+                        ret = refinement.edge_refine(o, par, n, d)
             if ret is not o:
                 V.failure(dict(case, what='in-place operation did not return the object itself'))
         except Exception as e:  # noqa
